@@ -49,6 +49,13 @@ def check_name_tests(A, R: Report, rid: str, funcs=None, only=None):
     return n
 
 
+def _parents(n):
+    p = getattr(n, '_parent', None)
+    while p is not None and not isinstance(p, (ast.FunctionDef, ast.AsyncFunctionDef)):
+        yield p
+        p = getattr(p, '_parent', None)
+
+
 def check_expand_tasks(A, R: Report, rid: str):
     fex = A.func('Chain._expand_tasks')
     appends = [n for n in A.typer.own_nodes(fex) if isinstance(n, ast.Call) and isinstance(n.func, ast.Attribute) and n.func.attr == 'append' and src(n.args[0]) == 'task_name']
@@ -190,6 +197,15 @@ def run(A, R: Report, thorough: bool):
         firsts = [src(e.elts[0]) for e in order_lists[0].iter.elts]
         R.check(firsts and 'excluded' in firsts[0] and all('excluded' not in x for x in firsts[1:]), 'R08.3', 'Chain._create_tasks: field order', key_of('order', firsts), f'fields processed in order {firsts}',
                 f'task fields are processed in order {firsts}: a task can be registered before its exclusion is known', where=where(fct, order_lists[0]))
+    # the exclusion set is per config: it must be created inside the loop over the configs
+    cfg_loops = [n for n in A.typer.own_nodes(fct) if isinstance(n, ast.For) and '_configs' in src(n.iter)]
+    ex_sets = [n for n in A.typer.own_nodes(fct) if isinstance(n, ast.Assign) and isinstance(n.value, ast.Call) and src(n.value.func) == 'set' and not n.value.args and 'exclu' in src(n.targets[0])]
+    if not cfg_loops or not ex_sets:
+        R.undecided('R08.3', 'Chain._create_tasks: exclusion scope', 'per-config exclusion set not recognised', where=where(fct))
+    else:
+        inside = all(any(p is lp for lp in cfg_loops for p in _parents(n)) for n in ex_sets)
+        R.check(inside, 'R08.3', 'Chain._create_tasks: exclusion scope', key_of('exclusion-scope', inside), 'exclusions are collected per config',
+                'the exclusion set outlives one config: a class excluded by one config is also dropped from every config processed after it', where=where(fct, ex_sets[0]))
     skips = []
     for f in [fct] + list(fct.nested.values()):
         for n in A.typer.own_nodes(f):
@@ -225,3 +241,12 @@ def run(A, R: Report, thorough: bool):
         R.check(not bad, 'R08.5', 'Chain: closures', key_of('closures', bad), 'closures match the orientation', '; '.join(bad), where=where(fb))
     else:
         R.undecided('R08.5', 'Chain: closures', 'edge orientation not recognised', where=where(fb))
+
+    # ---- R08.5b graph queries keep no state and return fresh sets
+    from ..types import Ctx
+    from .purity import check_stateless
+    R.rule('R08.5b', 'required_tasks / dependent_tasks / is_task_dependent_on / get_task store nothing on the chain (each answer is computed from the graph)', floor=3)
+    for n in ('dependent_tasks', 'required_tasks', 'is_task_dependent_on', 'get_task'):
+        f = chain.methods.get(n)
+        if f is not None:
+            check_stateless(A, R, 'R08.5b', f.short, [Ctx(f, ('inst', chain))], 'a memoised closure is handed out by reference: callers (and include_self=True) mutate the cached set, so later answers contain the task itself or foreign tasks', at=where(f))
